@@ -42,7 +42,7 @@ def e2_jobs(scens_quick, scens_thorough=None):
 
 C05_SCENS = ['TRUNCATE_BACK', 'TRUNCATE_FRONT', 'CLEAR', 'BUFFER_DROP', 'FILL', 'FILL_WITH', 'EXTEND_FROM_SLICE', 'EXTEND_ITER',
              'FROM_ITER', 'CLONE_FROM', 'DRAIN_DROP']
-C06_SCENS = ['FILL', 'FILL_SPARE', 'FILL_WITH', 'FILL_SPARE_WITH', 'EXTEND_FROM_SLICE', 'EXTEND_ITER', 'FROM_ITER', 'CLONE', 'CLONE_FROM']
+C06_SCENS = ['FILL', 'FILL_SPARE', 'FILL_WITH', 'FILL_SPARE_WITH', 'EXTEND_FROM_SLICE', 'EXTEND_ITER', 'FROM_ITER', 'CLONE', 'CLONE_FROM', 'EQ']
 C11_SCENS = ['OVER_RANGE_DRAIN', 'OVER_RANGE_ITER', 'OVER_RANGE_ITERMUT', 'SWAP', 'INDEX', 'INDEX_MUT']
 
 
@@ -56,7 +56,12 @@ def prop(pid, title, **kw):
 prop('C01', 'every mutator implements bounded-deque semantics', stubs=[ROT_STUB], e1_configs_thorough=['plain'])
 prop('C02', 'single-element insertion never loses an element')
 prop('C03', 'every element dropped exactly once, never while reachable', thorough_reach=False, stubs=[ROT_STUB], code_failures_count=False)
-prop('C04', 'unoccupied storage is never observed', thorough_reach=False, code_failures_count=False, jobs=10, stubs=[ROT_STUB])
+C04_E2 = ['TRUNCATE_BACK', 'TRUNCATE_FRONT', 'CLEAR', 'EXTEND_FROM_SLICE', 'FILL_WITH', 'CLONE_FROM', 'DRAIN_DROP']
+prop('C04', 'unoccupied storage is never observed', thorough_reach=False, code_failures_count=False, jobs=10, stubs=[ROT_STUB],
+     bounds=dict(E1=E1_BOUNDS, E2=E2_BOUNDS),
+     # after a caught panic, too, no operation may expose or destroy a slot that holds no live element: the E2
+     # post-condition "visible element is live" / "no destructor on a dead slot" at reduced capacities
+     e2=[dict(tag='std', features=['std', 'alloc'], jobs=e2_jobs([(s, 0, [1, 2, 3]) for s in C04_E2], [(s, 0, [1, 2, 3, 4]) for s in C04_E2]))])
 prop('C05', 'panicking destructor: no second drop, buffer stays valid', e1_configs=[], bounds=E2_BOUNDS,
      e2=[dict(tag='std', features=['std', 'alloc'],
               jobs=e2_jobs([(s, 1, QN5) for s in C05_SCENS] + [('FROM_ARRAY', 1, FA_Q)],
